@@ -113,7 +113,11 @@ class EventDispatcher:
         # Existance of the referents shall be guaranteed by the
         # automatic cleanup
         for handler_ref, method_ref in set(self._events[event_name]):
-            method_ref(handler_ref(), *args, **kwargs)
+            handler = handler_ref()
+            # The handler may have been collected since the snapshot
+            # was taken (eg. released by a previous callback)
+            if handler is not None:
+                method_ref(handler, *args, **kwargs)
 
     @property
     def dispatch_enabled(self) -> bool:
